@@ -381,6 +381,7 @@ TStuck ==
     /\ viol' = viol \cup {R.e}
                     \cup Flag(R.e \in {"deadlock", "livelock"} /\ "hdepth" \in DOMAIN R /\ R.hdepth > 0,
                               "handler_blocked_or_spinning")
+                    \cup Flag(R.e = "panic" /\ "inh" \in DOMAIN R /\ R.inh = 1, "handler_panicked")
     /\ Keep(<<acts, frames, dropped, usedIds, before, libDisp, prevKind, live, cur, replaced, held,
               everFreed>>)
 
@@ -413,7 +414,7 @@ C01set == {"act_after_removed", "act_uses_released_state", "act_in_progress_at_u
 C02set == {"ran_twice", "not_registered_during_delivery", "wrong_signal",
            "actions_overlap_in_one_delivery", "registered_action_did_not_run", "order",
            "free_while_held", "bulk_removal_seen_partially"}
-C03set == {"handler_blocked_or_spinning", "handler_lock", "handler_hint", "handler_alloc", "handler_free", "handler_steps",
+C03set == {"handler_blocked_or_spinning", "handler_panicked", "handler_lock", "handler_hint", "handler_alloc", "handler_free", "handler_steps",
            "guard_outlives_delivery"}
 C04set == {"prev_twice", "prev_after_action", "prev_wrong_signal", "prev_convention",
            "prev_arguments", "prev_outside_delivery", "prev_missing_before_action",
